@@ -156,6 +156,12 @@ func (s *Streamer) symBuffer(mk *ssa.MakeSlice) []*Piece {
 						if !open {
 							// a bounded window must be known to hold the source
 							if !formLE(w, n) {
+								if formLE(n, w) && !n.Equal(w) {
+									// observed: the window is never longer than the source and
+									// shorter for some inputs — copy() silently truncates
+									fail("a copy truncates its source: %s bytes are copied into a window of %s bytes", z.String(w), z.String(n))
+									continue
+								}
 								fail("copy into a window not known to be as long as its source")
 								continue
 							}
